@@ -320,6 +320,16 @@ func runTRC08(c *Ctx) {
 						if columns < 0 || columns > 1<<20 || colors < 0 || !okBpc || !(p == 0 || p == 1 || p == 2 || (p >= 10 && p <= 15)) {
 							c.Violate("tr-limits", "tr-filter-validate", "validateFlateLZW accepts "+strings.Join(args, " "), strings.Join(args, " "))
 						}
+						// fix 879cf71 (former finding D22): accepted parameters are accepted by the predictor itself
+						def := func(x, d int) int {
+							if x == 0 {
+								return d
+							}
+							return x
+						}
+						if _, _, _, _, perr := pdf.VerifTrPredictParams(def(colors, 1), def(bpc, 8), def(columns, 1), def(p, 1)); perr != nil {
+							c.Violate("tr-limits", "tr-filter-validate-encode", "validateFlateLZW accepts "+strings.Join(args, " ")+" but predict.Params.Validate fails: "+perr.Error(), strings.Join(args, " "))
+						}
 					}
 				}
 			}
